@@ -39,8 +39,19 @@ type Eff struct {
 	Static *schema.BodySchema
 	// Keys that selected Dep, in canonical form.
 	Keys []KeyEntry
-	// DynAncestor: some enclosing body (or this one) has DynamicBlocks on.
+	// DynAncestor: some enclosing body (or this one) has DynamicBlocks on
+	// (over-approximation used for don't-care zones).
 	DynAncestor bool
+	// Exact account of the DynamicBlocks extension as block bodies are merged:
+	// SDyn: on for the static body of this block (own flag, or handed down by the
+	// enclosing merged body); MergedDyn: on in the extensions of the merged body
+	// (the dependent body's extensions replace the static ones when it has any);
+	// DynTypes: block types a dynamic block may generate here (nil: the merged body
+	// declares no dynamic block); Propagated: nested block types whose static body
+	// receives the extension from this body.
+	SDyn, MergedDyn bool
+	DynTypes        map[string]bool
+	Propagated      map[string]bool
 	// Known is false for bodies the schema says nothing about.
 	Known bool
 }
@@ -209,6 +220,12 @@ func hasDepKeyAttrs(b *schema.BodySchema) bool {
 // the block's dependency keys, with one further level keyed by attributes of
 // the first.
 func Effective(block *hclsyntax.Block, bs *schema.BlockSchema, parent *Eff) *Eff {
+	e := effective0(block, bs, parent)
+	e.dynFacts(bs.Body, parent != nil && parent.Propagated[block.Type])
+	return e
+}
+
+func effective0(block *hclsyntax.Block, bs *schema.BlockSchema, parent *Eff) *Eff {
 	e := &Eff{Attrs: map[string]*schema.AttributeSchema{}, Blocks: map[string]*schema.BlockSchema{}, Static: bs.Body, Known: true}
 	if bs.Body != nil {
 		for k, v := range bs.Body.Attributes {
@@ -313,4 +330,42 @@ func (e *Eff) AttrSchema(name string) (*schema.AttributeSchema, string) {
 		return e.Any, "any"
 	}
 	return nil, ""
+}
+
+// dynFacts follows schemahelper.MergeBlockBodySchemas as the property's texts
+// describe it: a body whose static schema has DynamicBlocks declares a
+// "dynamic" block for the block types of the selected dependent body (or, with
+// no dependent body in force, for all its block types) and hands the extension
+// down to exactly those nested blocks that have a body.
+func (e *Eff) dynFacts(static *schema.BodySchema, handedDown bool) {
+	e.SDyn = handedDown || (static != nil && static.Extensions != nil && static.Extensions.DynamicBlocks)
+	e.MergedDyn = e.SDyn
+	var from map[string]*schema.BlockSchema
+	if e.Dep != nil && (e.Lookup == Resolved || e.Lookup == Partial) {
+		from = e.Dep.Blocks
+		if e.Dep.Extensions != nil {
+			e.MergedDyn = e.Dep.Extensions.DynamicBlocks
+		}
+	} else if static != nil {
+		from = static.Blocks
+	}
+	if e.SDyn && len(from) > 0 {
+		e.DynTypes, e.Propagated = map[string]bool{}, map[string]bool{}
+		for k, nb := range from {
+			e.DynTypes[k] = true
+			if nb.Body != nil {
+				e.Propagated[k] = true
+			}
+		}
+	}
+}
+
+// EffContent is the effective schema of the content block of a dynamic block
+// generating blocks of the given type: the type's static body, no dependent
+// bodies (no labels to select one).
+func EffContent(tbs *schema.BlockSchema, label string, parent *Eff) *Eff {
+	e := EffRoot(tbs.Body)
+	e.DynAncestor = true
+	e.dynFacts(tbs.Body, parent != nil && parent.Propagated[label])
+	return e
 }
